@@ -511,7 +511,63 @@ func (p c09) oddKinds(c *core.Ctx) {
 	c.Nontrivial(fmt.Sprintf("oddkind|%s|%s|%v|%s", k.label, tagName, required, name))
 }
 
+// needyProcessor: an eager component post-processor with a required point of its own: unsatisfiable -> the start
+// fails and no runner runs, whatever order the registry lists the processors in.
+func (p c09) needyProcessor(c *core.Ctx) {
+	g := world.NewG(c.Rng)
+	present := c.Rng.Intn(3) == 0
+	if present {
+		g.AddNode([]int{0, 1, 3}[c.Rng.Intn(3)], "needy-dep")
+	}
+	g.AddNode(world.TypesRunner[c.Rng.Intn(len(world.TypesRunner))], g.FreshName(len(g.Sc.Nodes)))
+	for x := 0; x < c.Rng.Intn(3); x++ {
+		g.AddRandomNode(world.TypesEagerPlain, 0.2)
+	}
+	g.ShuffleOrders()
+	var pp any
+	var core_ *world.NeedyPP
+	if c.Rng.Intn(2) == 0 {
+		x := &world.NeedyPP{Nm: "needy-pp"}
+		pp, core_ = x, x
+	} else {
+		x := &world.NeedyPPOrdered{NeedyPP: world.NeedyPP{Nm: "needy-pp"}}
+		pp, core_ = x, &x.NeedyPP
+	}
+	extra := []any{pp}
+	for k, n := 0, c.Rng.Intn(3); k < n; k++ {
+		extra = append(extra, world.NewPP(c.Rng.Intn(4), fmt.Sprintf("pp%d", k), c.Rng.Intn(5)-2))
+	}
+	c.Rng.Shuffle(len(extra), func(a, b int) { extra[a], extra[b] = extra[b], extra[a] })
+	opts := world.Options{Extra: extra}
+	if c.Rng.Intn(2) == 0 {
+		opts = world.Options{ExtraFirst: extra}
+	}
+	r := world.Start(g.Sc, opts)
+	c.Count("starts", 1)
+	c.Count("needy_processor_starts", 1)
+	detail := failDetail(g.Sc, r, map[string]any{"needy-dep registered": present, "processor": fmt.Sprintf("%T", pp)})
+	if abnormal(r.Outcome()) {
+		c.Fail("", fmt.Sprintf("%T: %s", pp, core.Short(r.OutcomeDetail(), 300)), detail)
+		return
+	}
+	runs := countEvents(r, "run")
+	if present {
+		if r.Outcome() != "ok" || core_.Req == nil {
+			c.Fail("", fmt.Sprintf("%T with a satisfiable required point: outcome %s, point set: %v", pp, r.Outcome(), core_.Req != nil), detail)
+			return
+		}
+	} else if r.Outcome() != "error" || runs != 0 {
+		c.Fail("", fmt.Sprintf("%T (an eager component post-processor) has an unsatisfiable required point `wire:\"needy-dep\"`, but App.Run returned %s and %d runner(s) ran", pp, r.Outcome(), runs), detail)
+		return
+	}
+	c.Nontrivial(fmt.Sprintf("needyprocessor|%v|%T|%s", present, pp, g.Sc.GraphSig()))
+}
+
 func (p c09) Run(c *core.Ctx) {
+	if c.Index%20 == 18 {
+		p.needyProcessor(c)
+		return
+	}
 	if c.Index%20 == 6 {
 		p.suppliedFault(c)
 		return
